@@ -218,7 +218,8 @@ func (c *Ctx) Parallel(n int, fn func(w *Worker, i int)) {
 					return
 				}
 				if c.Expired() {
-					c.Cap(fmt.Sprintf("internal deadline reached; %d of %d work units not started", n-i, n))
+					c.Cap("internal deadline reached before all work units were started")
+					c.Count("work_units_not_started", 1)
 					return
 				}
 				fn(w, i)
@@ -228,6 +229,20 @@ func (c *Ctx) Parallel(n int, fn func(w *Worker, i int)) {
 	wg.Wait()
 }
 
+// Phase records how long a named phase of a check took.
+func (c *Ctx) Phase(name string, f func()) {
+	t0 := time.Now()
+	f()
+	c.mu.Lock()
+	ph, _ := c.Rep.Extra["phase_seconds"].(map[string]float64)
+	if ph == nil {
+		ph = map[string]float64{}
+		c.Rep.Extra["phase_seconds"] = ph
+	}
+	ph[name] += time.Since(t0).Seconds()
+	c.mu.Unlock()
+}
+
 // Finish fills the report and writes it.
 func (c *Ctx) Finish(path string) {
 	c.mu.Lock()
@@ -235,9 +250,7 @@ func (c *Ctx) Finish(path string) {
 		c.Rep.Counters[k] = atomic.LoadInt64(p)
 	}
 	c.mu.Unlock()
-	if c.Rep.States == 0 {
-		c.Rep.States = c.NStates()
-	}
+	c.Rep.States += c.NStates()
 	c.Rep.WallS = time.Since(c.Start).Seconds()
 	sort.Slice(c.Rep.Violations, func(i, j int) bool { return c.Rep.Violations[i].Key < c.Rep.Violations[j].Key })
 	b, _ := json.MarshalIndent(c.Rep, "", " ")
